@@ -304,12 +304,19 @@ def pick_model(rng, names=('ising', 'xxz', 'xxz1', 'bose3', 'fermi'), maxdim=102
 DYADIC = [-2, -1, -0.5, 0.5, 1, 2, 0.25, 1.5]
 
 
-def rand_chain(rng, L, nops=3, coeffs=DYADIC, charges=True, allow_zero=False):
+OID_POOLS = [None, None, (0, -1, -2, 1), (0, -2, -1, -3), (0, 5, 100, 2 ** 40), (0, -1, 1, 2)]
+
+
+def rand_chain(rng, L, nops=3, coeffs=DYADIC, charges=True, allow_zero=False, pool=None):
+    """pool: tuple of operator ids with the identity id first (None: 0..nops); negative ids matter: hash(-1) == hash(-2) in CPython."""
     ln = int(rng.integers(1, L + 1))
     ist = int(rng.integers(0, L - ln + 1))
-    oids = [int(x) for x in rng.integers(0, nops + 1, size=ln)]
+    if pool is None:
+        oids = [int(x) for x in rng.integers(0, nops + 1, size=ln)]
+    else:
+        oids = [int(pool[int(x)]) for x in rng.integers(0, min(len(pool), nops + 1), size=ln)]
     if charges and rng.random() < 0.5 and ln > 1:
-        qn = [0] + [int(x) for x in rng.integers(-1, 2, size=ln - 1)] + [0]
+        qn = [0] + [int(x) for x in rng.integers(-2, 3, size=ln - 1)] + [0]
     else:
         qn = [0] * (ln + 1)
     cs = list(coeffs) + ([0] if allow_zero else [])
